@@ -111,6 +111,7 @@ def run(chk):
     chk.section("unwrap-helpers", lambda: unwrap_helpers(chk))
     chk.section("tuple-unpacking", lambda: tuple_unpacking(chk))
     chk.section("array-comprehension", lambda: array_comprehension(chk))
+    chk.section("borrowed-element-write-back", lambda: borrowed_element(chk))
     for i in range(NCH_B):
         chk.section(f"bounded-{i}", lambda i=i: bounded(chk, i))
     chk.expected_min_obligations = 20
@@ -121,6 +122,43 @@ def run(chk):
         "unpacking patterns with at most 2 names on each side of the starred target are enumerated",
     ]
     chk.not_covered += ["copy() as a contract (CopyInoutCompiler; the bounded layer runs it); that a `for` loop calls __next__ until nothing (C03); the borrow-array runtime itself beyond the bounded layer"]
+
+
+REPLAY_BORROW_ELEM = r'''
+import guppy_plainbool
+import tempfile, importlib.util, os, sys, shutil
+src = """from guppylang import guppy
+from guppylang.std.builtins import array, result
+from guppylang.std.mem import mem_swap
+@guppy
+def main() -> None:
+    xs = array(10, 11, 12, 13)
+    mem_swap(xs[0], xs[3])
+    result("s0", xs[0]); result("s1", xs[1]); result("s3", xs[3])
+    v = 14
+    mem_swap(v, xs[2])
+    result("v", v); result("t2", xs[2])
+    xss = array(array(1, 2), array(3, 4))
+    mem_swap(xss[1][0], xss[1][1])
+    result("n10", xss[1][0]); result("n11", xss[1][1]); result("n00", xss[0][0])
+"""
+d = tempfile.mkdtemp(dir=os.environ.get("TMPDIR", "/var/tmp")); fn = os.path.join(d, "replay_c19b.py"); open(fn, "w").write(src)
+spec = importlib.util.spec_from_file_location("replay_c19b", fn); m = importlib.util.module_from_spec(spec); sys.modules["replay_c19b"] = m
+spec.loader.exec_module(m)
+got = [(t, int(v)) for t, v in list(m.main.emulator(n_qubits=1).run().results)[0].entries]
+shutil.rmtree(d, ignore_errors=True)
+want = [("s0", 13), ("s1", 11), ("s3", 10), ("v", 12), ("t2", 14), ("n10", 4), ("n11", 3), ("n00", 1)]
+print(json.dumps({"violates": got != want, "observed": got, "required": want, "detail": "classical array elements lent to mem_swap: " + str(got)}))
+'''
+
+
+def borrowed_element(chk):
+    """An array element lent to a borrowing function (`f(xs[i])`) is updated in place: after the call the
+    callee's value is written back through __setitem__ — for EVERY element type (a classical element
+    can be lent through a parameter of a non-copyable type variable, e.g. mem_swap(xs[0], xs[3])).
+    The obligations are those of ExprCompiler._update_inout_ports (shared with C07)."""
+    from .C07 import ports
+    ports(chk, tag="borrowed-element:", replay=lambda m_: {"script": REPLAY_BORROW_ELEM, "input": {}})
 
 
 class Pfx:
